@@ -127,6 +127,37 @@ def r2(db, rep):
             ]
             for what, ok in checks:
                 rep.ob("R2", "collect:" + what.replace(" ", "-"), ok, f"Collector::collect: not true that {what}", loc=f.span)
+            # the finalize phase may be skipped only when *every* list of Unreachables is empty: for each Vec field F, the
+            # non-empty edge of `is_empty(&unreachables.F)` cannot reach sweep without passing finalize (or finalize is ungated)
+            adt = [a for k, a in db.adts.items() if k.startswith("boa_gc::") and k.endswith("::Unreachables")]
+            if rep.anchor("R2", "struct boa_gc::Unreachables", adt):
+                fields = [fl["n"] for fl in adt[0]["variants"][0]["fields"]]
+                rep.floor("R2", "lists in Unreachables", len(fields), 2)
+                ungated = f.path_avoiding(f.succs(m1), {fin}, lambda x: x == sw) is None
+                for fld in fields:
+                    ok = ungated
+                    for b2, t2 in f.calls():
+                        if ok or not cn(t2).endswith("::is_empty") or not t2["args"] or "to" not in t2:
+                            continue
+                        la = op_local(t2["args"][0])
+                        if la is None or not any(r[0] == "place" and any(x.endswith("Unreachables." + fld) for x in place_fields(r[1]))
+                                                 for r in roots(f, la)):
+                            continue
+                        for sb in f.reach_from([t2["to"]]):
+                            bs = bool_switch(f, sb)
+                            if not bs:
+                                continue
+                            pol, org = bool_origin(f, bs[0])
+                            if org[0] != "call" or org[1] != b2:
+                                continue
+                            nonempty = bs[1] if pol else bs[2]     # is_empty() == false
+                            if f.path_avoiding([nonempty], {fin}, lambda x: x == sw) is None:
+                                ok = True
+                            break
+                    rep.ob("R2", f"collect:finalize-runs-when-{fld}-nonempty", ok,
+                           f"Collector::collect can skip the finalize phase although unreachables.{fld} is not empty: those boxes "
+                           f"are swept without being finalized (dead ephemeron values keep phantom reference counts: the target "
+                           f"stays rooted, is never finalized or freed, and weak pointers to it keep upgrading)", loc=f.span)
     for nm in ("Collector::sweep", "Collector::dump"):
         fs = [f for f in db.fns.values() if cname(f.id) == nm and f.krate == "boa_gc"]
         if not rep.anchor("R2", nm, fs):
